@@ -369,7 +369,9 @@ def gaussian_filter1d(array, sigma, axis=-1, order=0, mode='reflect', cval=0., o
         # convolve1d computes a correlation, so the (antisymmetric)
         # odd-derivative kernels must be flipped
         weights = weights[::-1].copy()
-    return convolve1d(array, weights, axis, mode, cval, out=output)
+    if out is None:
+        out = output
+    return convolve1d(array, weights, axis, mode, cval, out=out)
 
 
 def gaussian_filter(array, sigma, order=0, mode='reflect', cval=0., out=None, output=None):
@@ -422,6 +424,7 @@ def gaussian_filter(array, sigma, order=0, mode='reflect', cval=0., out=None, ou
     output = _get_output(array, out, 'gaussian_filter', output=output)
     orders = _normalize_sequence(array, order, 'gaussian_filter')
     sigmas = _normalize_sequence(array, sigma, 'gaussian_filter')
+    result = output
     output[...] = array[...]
     noutput = None
     for axis in range(array.ndim):
@@ -429,7 +432,11 @@ def gaussian_filter(array, sigma, order=0, mode='reflect', cval=0., out=None, ou
         order = orders[axis]
         noutput = gaussian_filter1d(output, sigma, axis, order, mode, cval, noutput)
         output,noutput = noutput,output
-    return output
+    if output is not result:
+        # the two buffers alternate: after an odd number of passes the
+        # filtered image is in the scratch buffer
+        result[...] = output
+    return result
 
 def _wavelet_array(f, inline, func):
     f = _as_floating_point_array(f)
